@@ -78,6 +78,8 @@ def random_layout(seed, tier='quick'):
                 gen.NULLI() if last['k'] in ('split', 'join', 'term', 'nulli', 'clef', 'keysig', 'timesig', 'meter', 'staff', 'bbox', 'octx', 'tandem', 'visual') else copy.deepcopy(last)
             if last['k'] in ('nulli', 'clef', 'keysig', 'timesig', 'meter', 'staff', 'bbox', 'octx', 'tandem', 'visual', 'note', 'null') and r.random() < 0.25:
                 filler = gen.lit('hdr', r.choice(['**text', '**kern', '**dynam']))      # the surplus cell is an exclusive interpretation
+            if r.random() < 0.2:
+                filler = gen.lit('null', '')             # the surplus cell is EMPTY: the line ends in a tab
             cells = copy.deepcopy(src) + [copy.deepcopy(filler) for _ in range(extra)]
             lines = lines[:k] + [{'ev': 'surplus', 'cells': cells}]
             tags.append('surplus')
